@@ -539,7 +539,7 @@ func RunMany(c *hx.Ctx, prop string, n, par int, c10 bool) {
 }
 
 // histSkewShare: percent of the histories of one RunMany that may be dropped as skew.
-const histSkewShare = 5
+const histSkewShare = 15
 
 // ModelCheck emits `mc` cases: the driver explores EVERY schedule of the model for the configuration up to the state
 // limit and evaluates the executable invariant (all clauses of Inv), "no silent outcome", "the global timer completes a
